@@ -86,11 +86,16 @@ class Center:
         else:
             res = self.offset
 
+        offset_orientation = self.orientation
+
         if hasattr(res, "form"):
             # The offset is rotated as a cartesian vector
             res = res.copy(form="cartesian")
+            # A propagator may answer in an other frame than the one of its
+            # orbit (e.g. numerical propagators)
+            offset_orientation = res.frame.orientation
 
-        return self.orientation.convert_to(date, orientation) @ res
+        return offset_orientation.convert_to(date, orientation) @ res
 
 
 Earth = Center("Earth", body=constants.Earth)
